@@ -222,6 +222,21 @@ func c12Extra(rng *rand.Rand, kind string, j int) *SessSpec {
 		sp.ReqFail = map[int][2]int{vb: {2, []int{0x24, 0x84}[rng.Intn(2)]}}
 		sp.Steps = []Step{{Op: "barrier"}, {Op: "metrics"}, {Op: "end", VB: vb, St: transientStatus[rng.Intn(4)]}, {Op: "waitreopen", VB: vb, N: 2}, {Op: "sleep", Ms: 30}, {Op: "rebalanceapi"}, {Op: "waitrebalance", N: 1},
 			{Op: "sleep", Ms: 6500}, {Op: "barrier"}, {Op: "append", VB: vb, Items: genSnap(rng, o, &ctr)}, {Op: "barrier"}, {Op: "metrics"}, {Op: "waitstop", Ms: 150}}
+	case "slow-close-end":
+		// as "rebalanced-allfinal", but the handling of one vBucket's close confirmation (stream end, status "closed") is held up
+		// (a slow log sink at the library's "end stream" line): it belongs to the closed open and must not be counted against
+		// the next one
+		sp.Membership = "dynamic"
+		sp.FirstInfo = [2]int{1, 1}
+		sp.LogDelayMs = map[string]int{fmt.Sprintf("end stream vbID: %d", vb): 250 + rng.Intn(150)}
+		sp.Steps = []Step{{Op: "barrier"}, {Op: "metrics"}, {Op: "rebalanceapi"}, {Op: "waitrebalance", N: 1}, {Op: "sleep", Ms: 600}, {Op: "barrier"}, {Op: "metrics"}}
+		for _, v := range rng.Perm(sp.NumVB) {
+			if v == vb {
+				continue // this one keeps streaming: the client must not stop
+			}
+			sp.Steps = append(sp.Steps, Step{Op: "end", VB: v, St: finalStatus[rng.Intn(len(finalStatus))]}, Step{Op: "sleep", Ms: 700}, Step{Op: "metrics"})
+		}
+		sp.Steps = append(sp.Steps, Step{Op: "waitstop", Ms: 300})
 	case "rebalanced-allfinal":
 		// an idle stream is rebalanced (the node confirms every close request with a stream end, status "closed"); afterwards
 		// every vBucket ends for good, one after the other: each end is counted and the last one stops the client
@@ -520,6 +535,10 @@ func init() {
 				for _, k := range []string{"reopen-refused", "retry-vs-rebalance", "finite-rebalance", "rebalanced-allfinal"} {
 					out = append(out, drv.Scenario{Kind: k, Seed: seed, Params: mustJSON(c12Extra(xr, k, j)), TimeoutS: 120})
 				}
+			}
+			yr := rand.New(rand.NewSource(seed*137 + 29))
+			for j := 0; j < n/80; j++ {
+				out = append(out, drv.Scenario{Kind: "slow-close-end", Seed: seed, Params: mustJSON(c12Extra(yr, "slow-close-end", j)), TimeoutS: 120})
 			}
 			return out
 		},
